@@ -99,6 +99,7 @@ func TestC02(t *testing.T) {
 	defer closeSUT()
 	sp := e1Spec{prop: "C02", profile: profC02, armed: []string{"C02"}, drain: true,
 		nontrivial: func(r *hist.Runner) bool { return r.M.C["nt/multi-message-response-on-shared-topic"] > 0 }}
+	runKnownCanaries(t, "C02") // regression of a corrected false alarm (known/C02-FA-*.json): must stay silent
 	rapid.Check(t, func(rt *rapid.T) { runE1(rt, s, sp) })
 }
 
